@@ -68,6 +68,15 @@ func Walk(ctx context.Context, fileSystem fs.FS, prefix, delimiter, marker strin
 		}
 	}
 
+	// a prefix that leads into one of the internal directories matches
+	// nothing: the walk below starts at the prefix directory and would
+	// never see the internal directory itself
+	for _, sd := range skipdirs {
+		if root == sd || strings.HasPrefix(root, sd+"/") {
+			return WalkResults{}, nil
+		}
+	}
+
 	err := fs.WalkDir(fileSystem, root, func(path string, d fs.DirEntry, err error) error {
 		if err != nil {
 			return err
